@@ -1,7 +1,7 @@
 (* C16 - deep copy yields an equal, independent tree with capabilities re-homed.
-   Statements only.  Proved: data-section rule of copyStruct, capability re-homing, freshness /
-   independence of every copy (frame of writePtr / copyStruct for all trees, all arenas).
-   Not proved: [copy_value] (walk dst = resize (walk src) for whole trees, T2). *)
+   Statements only.  Proved (all T1): copyStruct's version-skew rule for data and pointer sections,
+   capability re-homing, freshness / independence of every copy (frame of writePtr / copyStruct
+   for all trees, all arenas).  Not proved: [copy_value] (walk dst = resize (walk src), T2). *)
 From CV Require Import Core.Builder Core.ReaderFacts Core.ArithFacts Core.BuilderFacts Core.AllocProofs
   Core.WritePtrProofs Core.HeapProofs Core.CopyProofs.
 Open Scope Z_scope.
@@ -31,6 +31,29 @@ Theorem C16_copy_struct_begins_with_data_phase : forall fuel strict w dst l src 
   exists w1, copy_data_phase w dst l src = Ok w1.
 Proof. exact copy_struct_starts_with_data. Qed.
 Print Assumptions C16_copy_struct_begins_with_data_phase.
+
+(* [T1] copy_struct_data for the whole struct (List.SetStruct / Struct.CopyFrom / every struct
+   copied by writePtr), all sources, arenas, capacities, both version-skew directions:
+   exact frame (only the destination's data section and its own pointer slots change among the
+   existing bytes: source pointers beyond the destination's count are dropped), destination
+   slots beyond the source's count are null, the data section is truncated / zero-extended *)
+Theorem C16_copy_struct_ptrs : forall fuel strict w dst l src w',
+  inv (w_dst w) -> 0 <= p_seg dst < nsegs (w_dst w) -> wf_size (p_size dst) -> sz_ok src ->
+  p_valid dst = true -> p_valid src = true ->
+  0 <= p_off dst ->
+  p_off dst + DataSize (p_size dst) + 8 * PointerCount (p_size dst) <= zlen (mem (w_dst w) (p_seg dst)) ->
+  zlen (mem (w_dst w) (p_seg dst)) <= maxSegmentSize ->
+  zlen (nth (Z.to_nat (p_seg src)) (w_segs w l) []) < 4294967296 ->
+  copy_struct (S fuel) strict w dst l src = Ok w' ->
+  let seg := p_seg dst in
+  let srcData := sub (nth (Z.to_nat (p_seg src)) (w_segs w l) []) (p_off src) (DataSize (p_size src)) in
+  keeps (w_dst w) (w_dst w') (Rexact dst) /\ inv (w_dst w') /\ w_src w' = w_src w /\
+  (forall j, PointerCount (p_size src) <= j < PointerCount (p_size dst) ->
+     readRawPointer (mem (w_dst w') seg) (pointerAddress dst j) = Ok 0) /\
+  slice (mem (w_dst w') seg) (p_off dst) (DataSize (p_size dst)) =
+    Ok (resize_data srcData (Z.to_nat (DataSize (p_size dst)))).
+Proof. exact copy_struct_ptrs. Qed.
+Print Assumptions C16_copy_struct_ptrs.
 
 (* [T1] capability copy across messages appends exactly one entry referring to the source's
    client; the stored pointer indexes it *)
